@@ -187,7 +187,12 @@ def known (cfg : Cfg) : List Id := cfg.owned ++ cfg.selected
 /-- `process_changing_cause` as far as progress is concerned. -/
 def cycle (cfg : Cfg) (P : Store) (now now1 : Tick) (exec : Id → Nat → Outcome) : CycleResult :=
   if !handlerReasons.contains cfg.reason then
-    { invoked := [], P' := P, closed := false, delays := [] }
+    -- Informational causes invoke nothing. On a no-op (nothing changed since the last handled state,
+    -- nothing to resume) whatever progress records the owned handlers left behind belong to a change
+    -- that was reverted meanwhile: they are purged (fix d1b2dc4). GONE/FREE leave the object alone.
+    { invoked := [],
+      P' := if cfg.reason == "noop" then purge P (fromStorage P cfg.owned) cfg.owned cfg.owned else P,
+      closed := false, delays := [] }
   else
     let st0 := withHandlers (fromStorage P cfg.owned) cfg.selected cfg.reason now
     let ex := hasExtras st0 (known cfg) cfg.reason
